@@ -1131,6 +1131,10 @@ pub fn explore_deep<T: RN>(prop: &str) -> (Acc, serde_json::Value) {
 
 pub fn replay_case<T: RN>(prop: &str, case: &Case, _idx: u64, acc: &mut Acc) {
     set_leafset(case.leafset);
+    if let Some((which, 201)) = case.large {
+        crate::largeops::awkward_power(which, T::SECOND, prop, serde_json::to_value(case).unwrap(), _idx, acc);
+        return;
+    }
     if let Some((which, 200)) = case.large {
         crate::largeops::awkward_unary(which, T::SECOND, prop, serde_json::to_value(case).unwrap(), _idx, acc);
         return;
